@@ -233,6 +233,13 @@ MUTANTS = [
      R('    elif type_def.kind == "or":\n        subset = filter_null_base_type(type_def.items)\n        if len(subset) == 1:\n            name = get_type_name',
        '    elif type_def.kind == "or":\n        subset = list(type_def.items)\n        if len(subset) == 1:\n            name = get_type_name'),
      "member-type-mapped", "T|null becomes OrType<T, object>"),
+    ("c18-append-unvalidated", "C18", P_MAIN,
+     R('        json_models.append(json_model)', '        json_models.append(json.load(model_file.open("rb")))'),
+     "every-model-validated", "the list handed to create_lsp_model holds a re-read, unvalidated document"),
+    ("c18-append-before-validate", "C18", P_MAIN,
+     R('        jsonschema.validate(json_model, schema)\n        json_models.append(json_model)',
+       '        json_models.append(json_model)\n        json_model = dict(json_model)\n        jsonschema.validate(json_model, schema)'),
+     "every-model-validated", "what is validated is a copy made after the original was queued"),
     ("c18-schema-root-vacuous", "C18", P_MAIN,
      R('    schema.setdefault("$ref", "#/definitions/MetaModel")\n', ''),
      "gate-schema-constrains-document", "the original defect D15: the schema file has no root reference"),
